@@ -184,6 +184,11 @@ func rulesC09(c *Ctx) {
 	// every entity scan of the checks iterates the VALID ids of the store (for an extended child store:
 	// only entities that have child data), otherwise parent-only entities are reported as broken
 	ruleValidIds(c, "C09.VALIDIDS")
+	// what the check compares against: the entity scans see exactly the store's own entities, and an index is
+	// registered with the nullability its constructor's name promises (a non-nullable index registered as
+	// nullable makes the check accept nil values and "repair" dangling references by nulling them)
+	ruleIdCursorFiltered(c, "C09.IDCURSOR")
+	ruleFkWiring(c, "C09.WIRING")
 	ruleC09Phases(c, cg, impls)
 	ruleReseek(c, "C09.RESEEK", c.prodFuncs("boltz"))
 }
